@@ -247,6 +247,8 @@ def oracle_labels(ck, rng):
             self._n = image_stack.shape[0]
             # which sub-volume sits in which row of the stack (the harness plants a one-hot pattern around every molecule)
             seen["row_argmax"] = [int(v) for v in np.asarray(image_stack).reshape(self._n, -1).argmax(axis=1)]
+            seen["stack"] = np.asarray(image_stack).copy()
+            seen["mask"] = None if mask_image is None else np.asarray(mask_image).copy()
 
         def run(self):
             self._labels = np.array(seen["script"][: self._n], dtype=np.int32)
@@ -283,6 +285,48 @@ def oracle_labels(ck, rng):
             ck.oracle_count("label_writeback", 1, 1)
             for f in fails:
                 ck.violation(what=f"loader.classify: {f}", inp={"n": nm, "script": script}, key={"site": "labels", "symptom": f[:24]}, oracle="label_writeback")
+        # the other ways of telling classify() the box: a template, an array mask (loader without a box of its own), the legacy tilt keyword
+        import warnings
+        for i in range(2 if ck.tier == "quick" else 8):
+            nm = int(rng.integers(3, 7))
+            tomo = rng.normal(size=(24, 24, 24)).astype(np.float32)
+            mol = Molecules(rng.uniform(9, 14, size=(nm, 3)), Rotation.random(nm, random_state=100 + i), features={"a": list(range(nm))})
+            seen["script"] = [int(x) for x in rng.integers(0, 3, size=nm)]
+            tmpl = rng.normal(size=(6, 5, 7)).astype(np.float32)
+            msk = (rng.random((6, 5, 7)) > 0.3).astype(np.float32)
+            nobox = SubtomogramLoader(tomo, mol, order=1)
+            boxed = SubtomogramLoader(tomo, mol, order=1, output_shape=(6, 5, 7))
+            fails = []
+            try:
+                stacks = {}
+                for name, call in (("template only", lambda: nobox.classify(template=tmpl, label_name="cls")),
+                                   ("mask only", lambda: nobox.classify(mask=msk, label_name="cls")),
+                                   ("template and mask", lambda: nobox.classify(template=tmpl, mask=msk, label_name="cls")),
+                                   ("box of the loader", lambda: boxed.classify(label_name="cls")),
+                                   ("box of the loader, template and mask", lambda: boxed.classify(template=tmpl, mask=msk, label_name="cls")),
+                                   ("tilt", lambda: boxed.classify(template=tmpl, mask=msk, tilt=(-50, 40), label_name="cls"))):
+                    res = call()
+                    if seen["shape"] != (nm, 6, 5, 7): fails.append(f"{name}: stack of shape {seen['shape']} handed to the classifier")
+                    if res.loader.molecules.features["cls"].to_list() != seen["script"][:nm]: fails.append(f"{name}: labels not in molecule order")
+                    if "mask" in name and (seen["mask"] is None or not np.array_equal(seen["mask"], msk)): fails.append(f"{name}: the classifier did not receive the given mask")
+                    stacks[name] = seen["stack"]
+                if not np.allclose(stacks["template and mask"], stacks["box of the loader, template and mask"], atol=1e-5):
+                    fails.append("the same template and mask give different stacks with and without a loader box")
+                with warnings.catch_warnings():
+                    warnings.simplefilter("ignore")
+                    boxed.classify(template=tmpl, mask=msk, tilt_range=(-50, 40), label_name="cls")
+                if not np.allclose(seen["stack"], stacks["tilt"], atol=1e-5): fails.append("legacy tilt_range keyword gives another stack than tilt")
+                if np.allclose(stacks["tilt"], stacks["box of the loader, template and mask"], atol=1e-7): fails.append("the tilt model has no effect on the stack")
+                try:
+                    nobox.classify(label_name="cls")
+                    fails.append("classify without any box information accepted")
+                except (ValueError, TypeError):
+                    pass
+            except Exception as e:  # noqa
+                fails.append(f"raised {type(e).__name__}: {e}")
+            ck.oracle_count("classify_box_sources", 1, 1)
+            for f in fails[:3]:
+                ck.violation(what=f"loader.classify: {f}", inp={"n": nm}, key={"site": "classify-box", "symptom": f[:24]}, oracle="classify_box_sources")
         # the i-th image handed to the classifier is the i-th molecule's, also for batches whose tomogram ids appear in any order:
         # every molecule's 1x1x9 sub-volume is one-hot at its own index (the normalised difference to the average keeps that arg-max)
         for i in range(4 if ck.tier == "quick" else 24):
